@@ -803,6 +803,30 @@ class R:
         CTX.hyp[key(v)] = (rho, s, v)
         return R.of(v)
 
+    def log(s):
+        """natural logarithm as an auxiliary variable with sound (incomplete) facts: sign, the tangent bounds
+        1 - 1/x <= log x <= x - 1, and coarse magnitude bounds log x < 0.6932 k for x < 2^k; one variable per distinct argument"""
+        if not s.f and s.coef > 0:
+            if s.coef == 1:
+                return R.const(0)
+        n, d = s.num_den()
+        kk = "log:" + z3.simplify(n * z3.Real("__k1") - d * z3.Real("__k2"), som=True).sexpr()
+        if kk not in CTX.roots:
+            CTX.n += 1
+            L = z3.Real(f"log!{CTX.n}")
+            x = s.term()
+            facts = [x > 0, L <= x - 1, L * x >= x - 1, z3.Implies(x >= 1, L >= 0), z3.Implies(x <= 1, L <= 0),
+                     z3.Implies(x == 1, L == 0)]
+            for k in (1, 4, 10, 30, 100, 1000):
+                facts.append(z3.Implies(x < z3.RealVal(2 ** k), L < z3.RealVal("0.6932") * k))
+                facts.append(z3.Implies(x * z3.RealVal(2 ** k) > 1, L > -z3.RealVal("0.6932") * k))
+            con = z3.And(facts)
+            CTX.cons.append(con)
+            CTX.defines[con.get_id()] = {str(L)}
+            CTX.roots[kk] = R.of(L)
+            CTX.log.append("log auxiliary for " + _short(s, 60))
+        return CTX.roots[kk]
+
     @staticmethod
     def hangle(name):
         v = z3.Real(f"val_{name}")
